@@ -105,10 +105,10 @@ def gen(rng, tier):
         pr.append(["waitclose", T, 5.0])
         if after_recv:
             pr.append(["recv", T])
-        if can_close_probe and rng.random() < 0.6:
-            pr.append(["close", T])
-            pr.append(["isclosed", T])
         rng.shuffle(pr)
+        if can_close_probe and rng.random() < 0.7:
+            # the observer closes its own end: from then on it is a closing side itself
+            pr += [["close", T], ["isclosed", T], ["send", T, "probe", ["none"]], ["close", T]]
         return pr
 
     use_cb = rng.random() < 0.2
@@ -272,6 +272,7 @@ def oracle(case, res, hist):
     for aid in case["observers"]:
         ops = case["actors"][aid]["ops"]
         observed_at = None
+        own_close = False
         for oi, op in enumerate(ops):
             r = hist.ret.get((aid, oi))
             if observed_at is None:
@@ -292,6 +293,20 @@ def oracle(case, res, hist):
             if r is None:
                 continue  # blocked: reported by generic rules
             rr = r[1]
+            if own_close:
+                # after its own close() the observer is a closing side: no sendonly exemption any more
+                if op[0] == "send" and rr[0] == "ok":
+                    V.append(v("send-after-own-close", key0, f"actor {aid}: send succeeded after its own close()"))
+                elif op[0] == "send" and rr[0] == "exc" and rr[1] != "OSError":
+                    V.append(v("send-raised-other", f"{key0};{rr[1]}", f"{rr}"))
+                elif op[0] == "isclosed" and rr != ("val", True):
+                    V.append(v("isclosed-false-after-own-close", key0, f"actor {aid}: isclosed() -> {rr} after its own close()"))
+                elif op[0] == "close" and rr[0] != "ok":
+                    V.append(v("second-close-raised", f"{key0};{rr[1]}", f"{rr}"))
+                continue
+            if op[0] == "close" and rr[0] == "ok":
+                own_close = True
+                continue
             if op[0] == "send":
                 if rr[0] == "ok" and not sendonly:
                     V.append(v("send-after-observed-close", key0,
